@@ -15,7 +15,7 @@ use std::time::{Duration, Instant};
 #[derive(Clone, Debug, PartialEq)]
 pub enum Dec {
     /// solver-decided branch; `other` = the opposite polarity is feasible and unexplored
-    Bool { taken: bool, other: bool },
+    Bool { taken: bool, other: bool, both: bool },
     /// enumerated choice; the value used is `(taken + rot) % n`
     Choose { taken: u32, n: u32, rot: u32 },
 }
@@ -258,7 +258,12 @@ pub fn decide(cond: F) -> bool {
         let smt = cond.smt();
         if c.pos < c.trail.len() {
             let taken = match &c.trail[c.pos] {
-                Dec::Bool { taken, .. } => *taken,
+                Dec::Bool { taken, both, .. } => {
+                    if *both {
+                        c.n_fork += 1;
+                    }
+                    *taken
+                }
                 d => panic!("symx: nondeterministic re-execution: expected Bool decision, trail has {d:?} at {}", c.pos),
             };
             c.pos += 1;
@@ -284,7 +289,7 @@ pub fn decide(cond: F) -> bool {
         if can_t && can_f {
             c.n_fork += 1;
         }
-        c.trail.push(Dec::Bool { taken: first, other: can_t && can_f });
+        c.trail.push(Dec::Bool { taken: first, other: can_t && can_f, both: can_t && can_f });
         c.pos += 1;
         if first {
             s.assert(&smt)
@@ -744,7 +749,7 @@ fn backtrack(trail: &mut Vec<Dec>, frozen: usize) -> bool {
             return false;
         }
         match trail.last_mut().unwrap() {
-            Dec::Bool { taken, other } if *other => {
+            Dec::Bool { taken, other, .. } if *other => {
                 *taken = !*taken;
                 *other = false;
                 return true;
